@@ -55,7 +55,126 @@ func checkC18(c *Ctx) {
 	}
 	c18Reader(c, fn, "C18")
 	c18Writer(c)
+	c18ChecksumShape(c)
 }
+
+// c18ChecksumShape: K7 — byte weights of the RFC 1071 sum: a byte at an even offset is added as the high
+// octet (<< 8), a byte at an odd offset as the low octet; a trailing odd byte counts as a high octet; the
+// 32-bit sum is folded to 16 bits with end-around carry.
+func c18ChecksumShape(c *Ctx) {
+	r, sx := c.R, c.Sx()
+	f := c.P.Func(nc4 + ".calculateChecksum")
+	if f == nil {
+		r.Undecided("C18-K7", "nclient4.calculateChecksum", "-", "not found")
+		return
+	}
+	key := func(s string) string { return "nclient4.calculateChecksum: " + s }
+	buf := f.Params[0]
+	n := 0
+	allInstrs(f, func(in ssa.Instruction) {
+		ia, ok := in.(*ssa.IndexAddr)
+		if !ok || ia.X != ssa.Value(buf) {
+			return
+		}
+		n++
+		// parity class of the index
+		par := "?"
+		switch idx := ia.Index.(type) {
+		case *ssa.Phi:
+			// loop counter starting at 0 with step 2, or the decremented length on the odd path
+			even := true
+			isCounter := false
+			for _, e := range idx.Edges {
+				if k, ok := intConst(e); ok {
+					if k%2 != 0 {
+						even = false
+					}
+					continue
+				}
+				if bo, ok := e.(*ssa.BinOp); ok && bo.Op == token.ADD && bo.X == ssa.Value(idx) {
+					if k, ok := intConst(bo.Y); ok && k%2 == 0 {
+						isCounter = true
+						continue
+					}
+				}
+				even = false
+			}
+			if even && isCounter {
+				par = "even"
+			}
+		case *ssa.BinOp:
+			if idx.Op == token.ADD {
+				if ph, ok := idx.X.(*ssa.Phi); ok {
+					if k, ok := intConst(idx.Y); ok && k == 1 {
+						_ = ph
+						par = "odd"
+					}
+				}
+			}
+			if idx.Op == token.SUB {
+				// l-1 on the path where l is odd
+				if k, ok := intConst(idx.Y); ok && k == 1 && strings.HasPrefix(sx.Of(idx.X).String(), "len(") {
+					par = "even(last of odd length)"
+				}
+			}
+		}
+		// how the loaded byte enters the sum
+		shifted := false
+		var visit func(v ssa.Value, d int)
+		visit = func(v ssa.Value, d int) {
+			if d > 3 {
+				return
+			}
+			for _, ref := range *v.Referrers() {
+				switch t := ref.(type) {
+				case *ssa.UnOp:
+					visit(t, d+1)
+				case *ssa.Convert:
+					visit(t, d+1)
+				case *ssa.BinOp:
+					if t.Op == token.SHL {
+						if k, ok := intConst(t.Y); ok && k == 8 {
+							shifted = true
+						}
+					}
+				}
+			}
+		}
+		visit(ia, 0)
+		switch {
+		case strings.HasPrefix(par, "even"):
+			r.Check(shifted, "C18-K7", key("byte at "+par+" offset is the high octet of its 16-bit word"), c.P.ipos(ia), "load feeds a << 8", "a byte at an even offset is added without the 8-bit shift: the checksum does not verify under RFC 1071 (payloads of odd length / all payloads)")
+		case par == "odd":
+			r.Check(!shifted, "C18-K7", key("byte at odd offset is the low octet of its 16-bit word"), c.P.ipos(ia), "load is added unshifted", "a byte at an odd offset is shifted")
+		default:
+			r.Undecided("C18-K7", key("index parity of "+shortDesc(ia.Index, 3)), c.P.ipos(ia), "the summation loop is not in the recognised form (counter from 0 step 2, trailing byte at len−1)")
+		}
+	})
+	r.Check(n == 3, "C18-K7", key("three byte loads: trailing odd byte, even and odd byte of each word"), c.P.pos(f.Pos()), "instance count", fmt.Sprintf("%d loads of the buffer", n))
+	// the trailing byte is handled only when the length is odd
+	okOdd := false
+	for _, b := range f.Blocks {
+		if iff := ifOf(b); iff != nil {
+			s := sx.Of(iff.Cond).String()
+			if strings.Contains(s, "bin[&](const(1),len(") && (strings.HasPrefix(s, "bin[!=](") || strings.HasPrefix(s, "bin[==](")) {
+				okOdd = true
+			}
+		}
+	}
+	r.Check(okOdd, "C18-K7", key("trailing byte handled iff the length is odd"), c.P.pos(f.Pos()), "test len & 1", "no parity test of the length")
+	// fold
+	g := c.P.Func(nc4 + ".checksumCombine")
+	if g == nil {
+		r.Undecided("C18-K7", "nclient4.checksumCombine", "-", "not found")
+		return
+	}
+	s := sx.Of(returnsOf(g)[0].Results[0]).String()
+	okFold := strings.HasPrefix(s, "conv[uint16](bin[+](") && strings.Contains(s, "bin[>>](") && strings.Contains(s, "const(16)")
+	r.Check(okFold, "C18-K7", "nclient4.checksumCombine: end-around carry fold uint16(v + v>>16) of the 32-bit sum of both operands", c.P.pos(g.Pos()), "symx", "combine computes "+s)
+}
+
+var _ = token.ADD
+
 
 // c18Reader is also used by C03 (rule prefix C03) for the frame-size fact.
 func c18Reader(c *Ctx, fn *ssa.Function, prop string) {
